@@ -15,6 +15,8 @@
 //	                      extensions, ciphertexts under other keys, garbage; next to an authentic
 //	                      and an excepted neighbour cookie.
 //	multi   (direct)      several cookies per request including duplicates of one name.
+//	rawline (wire)        the handler writes a raw Set-Cookie line, also with attributes the cookie
+//	                      parser rejects: ciphertext only all the same.
 //
 // The handler's view is recorded through Cookies(name) and through
 // Request().Header.VisitAllCookie (which is what cookie binding iterates).
@@ -58,6 +60,10 @@ func seal(key, nonce, pt []byte) string {
 	return base64.StdEncoding.EncodeToString(g.Seal(append([]byte(nil), nonce...), nonce, pt, nil))
 }
 
+// open is an OBSERVATION, never a verdict: it tells whether an issued value happens to be in the
+// layout the harness knows (std base64 of nonce|ct|tag). The property statement does not fix the
+// cipher text encoding; whether an issued value is right is decided only by the statement's
+// clauses (no plaintext on the wire, two issues differ, replay gives the original value).
 func open(key []byte, b64 string) (string, bool) {
 	raw, err := base64.StdEncoding.DecodeString(b64)
 	if err != nil || len(raw) < 12 {
@@ -86,7 +92,8 @@ func cookieNorm(v string) string {
 	return v
 }
 
-// decodesTo reports whether the altered text base64-decodes to exactly the issued ciphertext bytes.
+// decodesTo reports whether the altered text base64-decodes to exactly the issued ciphertext bytes
+// (only meaningful when the issued value was recognised as std base64, see open).
 func decodesTo(alt string, ct []byte) bool {
 	for _, s := range []string{alt, cookieNorm(alt)} {
 		if d, err := base64.StdEncoding.DecodeString(s); err == nil && bytes.Equal(d, ct) {
@@ -115,6 +122,7 @@ type world struct {
 	got     map[string]string
 	visited []kv
 	entered int
+	rawSet  []string          // raw Set-Cookie lines the handler writes itself (c.Set), e.g. taken over from an upstream
 	failSet int               // != 0: the setting handler returns fiber.NewError(failSet) after setting the cookies
 	bind    bool              // also record the cookie binder's view (it iterates VisitAllCookie)
 	bound   map[string]string // Bind().Cookie(&map[string]string)
@@ -137,6 +145,9 @@ func newApp(key string, except []string, withMW bool, w *world) *fiber.App {
 			for _, s := range w.toSet {
 				c.Cookie(&fiber.Cookie{Name: s.Name, Value: s.Value, Path: s.Path, HTTPOnly: s.HTTPOnly,
 					Secure: s.Secure, SameSite: s.SameSite, MaxAge: s.MaxAge})
+			}
+			for _, line := range w.rawSet {
+				c.Set(fiber.HeaderSetCookie, line)
 			}
 			if w.failSet != 0 {
 				// cookies set before a handler fails still leave the server: they must be encrypted too
@@ -407,14 +418,13 @@ func script(e *ev.Env, c *ev.Case, keyRaw []byte, key string, except []string, c
 			val := wc.sc.Value
 			leak := ""
 			core := ck.p.core
-			dec, derr := base64.StdEncoding.DecodeString(val)
 			if len(core) >= 6 {
 				switch {
 				case bytes.Contains(out, []byte(core)):
 					leak = "plaintext-in-response-bytes"
-				case bytes.Contains(out, []byte(base64.StdEncoding.EncodeToString([]byte(core)))):
+				case containsEncoded(out, core):
 					leak = "base64-of-plaintext-in-response-bytes"
-				case derr == nil && bytes.Contains(dec, []byte(core)):
+				case decodedContains(val, core):
 					leak = "plaintext-inside-base64-value"
 				}
 			}
@@ -553,13 +563,30 @@ func roundtripSig(lc string) string {
 	return "roundtrip|handler-view|value-not-representable-in-a-plain-set-cookie"
 }
 
-// issueSig: same input classes as roundtripSig, seen at issue time (the issued ciphertext opens
-// to the mangled value).
-func issueSig(lc string) string {
-	if lc == "clean" {
-		return "issue|ciphertext-does-not-open-to-plaintext|value-clean"
+var encodings = []*base64.Encoding{base64.StdEncoding, base64.RawStdEncoding, base64.URLEncoding, base64.RawURLEncoding}
+
+// containsEncoded / decodedContains look for the plaintext behind any of the stdlib base64
+// alphabets. They can only ADD a confidentiality finding; no encoding is demanded of the value.
+func containsEncoded(out []byte, core string) bool {
+	n := len(core) / 3 * 4 // whole quanta only: independent of what follows the plaintext
+	if n < 8 {
+		return false
 	}
-	return "roundtrip|handler-view|value-not-representable-in-a-plain-set-cookie"
+	for _, enc := range []*base64.Encoding{base64.RawStdEncoding, base64.RawURLEncoding} {
+		if bytes.Contains(out, []byte(enc.EncodeToString([]byte(core))[:n])) {
+			return true
+		}
+	}
+	return false
+}
+
+func decodedContains(val, core string) bool {
+	for _, enc := range encodings {
+		if dec, err := enc.DecodeString(val); err == nil && bytes.Contains(dec, []byte(core)) {
+			return true
+		}
+	}
+	return false
 }
 
 func visitOf(vs []kv, name string) []string {
@@ -585,6 +612,121 @@ func eqStrs(a, b []string) bool {
 }
 
 // ---------------------------------------------------------------------------------------------
+// rawline family: the handler writes a Set-Cookie line itself (a line taken over from an upstream
+// service, an adapted net/http handler, ...), possibly with attributes fasthttp's own cookie
+// parser does not accept. It is a cookie set by a handler behind the middleware all the same:
+// the client must see ciphertext only. Only that clause is judged for lines with odd attributes
+// (a conforming jar drops or refuses some of them); lines with ordinary attributes are replayed too.
+
+var rawAttrs = []struct {
+	attrs string
+	odd   bool // fasthttp.Cookie.ParseBytes reports an error for it
+}{
+	{"", false},
+	{"; Path=/", false},
+	{"; Path=/; Secure; HttpOnly; SameSite=None", false},
+	{"; Expires=Wed, 21 Oct 2037 07:28:00 GMT; Path=/", false},
+	{"; Max-Age=3600; Path=/", false},
+	{"; Foo=bar; Path=/", false},
+	{"; Max-Age=-1; Path=/", true},
+	{"; Max-Age=abc; Path=/", true},
+	{"; Max-Age=; Path=/", true},
+	{"; Path=/; Max-Age=99999999999999999999", true},
+	{"; Expires=Wednesday, 21-Oct-37 07:28:00 GMT; Path=/", true},
+	{"; Expires=never; Path=/", true},
+	{"; Path=/; Expires=2037-10-21T07:28:00Z", true},
+}
+
+func rawline(e *ev.Env, c *ev.Case, fixed int) {
+	r := c.R
+	keyRaw, key := genKey(r)
+	names := pickNames(r, 3)
+	except := []string{names[2]}
+	w := &world{}
+	app := newApp(key, except, true, w)
+	ai := r.Intn(len(rawAttrs))
+	if fixed >= 0 {
+		ai = fixed
+	}
+	ra := rawAttrs[ai]
+	core := uid(r, r.Range(6, 10))
+	other := uid(r, 6)
+	line := names[0] + "=" + core + ra.attrs
+	w.rawSet = []string{line}
+	w.toSet = []setInstr{{Name: names[1], Value: other, Path: "/"}}
+	cls := "ordinary-attributes"
+	if ra.odd {
+		cls = "attribute-the-cookie-parser-rejects"
+	}
+	cfg := map[string]any{"key_len": len(keyRaw), "except": except, "raw_set_cookie_line": line, "attribute_class": cls}
+	var m map[string]wireCookie
+	var out []byte
+	var bad string
+	if e.Guard(c, "issue-rawline", cfg, func() { m, out, bad = wireSet(app, "/") }) {
+		return
+	}
+	e.Eval(1)
+	stat(e, "rawline_cases", 1)
+	cfg["response"] = printable(string(out))
+	leak := ""
+	switch {
+	case bytes.Contains(out, []byte(core)):
+		leak = "plaintext-in-response-bytes"
+	case containsEncoded(out, core):
+		leak = "base64-of-plaintext-in-response-bytes"
+	}
+	if wc, ok := m[names[0]]; ok && leak == "" && wc.sc != nil && decodedContains(wc.sc.Value, core) {
+		leak = "plaintext-inside-base64-value"
+	}
+	if leak != "" {
+		e.Violation(c, "confidentiality|wire-set-cookie|raw-set-cookie-line:"+cls+"|"+leak,
+			"plaintext of a cookie the handler wrote as a raw Set-Cookie line is visible on the wire", cfg)
+		return
+	}
+	if bytes.Contains(out, []byte(other)) {
+		e.Violation(c, "confidentiality|wire-set-cookie|plaintext-in-response-bytes", "plaintext of an encrypted cookie is visible on the wire next to a raw Set-Cookie line", cfg)
+		return
+	}
+	stat(e, "rawline_ciphertext_only", 1)
+	if ra.odd {
+		stat(e, "rawline_odd_attribute_ciphertext_only", 1)
+	}
+	e.Nontrivial("rawline", c.ID)
+	if ra.odd || bad != "" {
+		return
+	}
+	// ordinary attributes: the cookie comes back with its original value
+	wc, ok := m[names[0]]
+	if !ok || wc.class != "" {
+		return // how a raw line is re-serialised is not the statement's business
+	}
+	var jar strict.Jar
+	jar.Store(wc.line, t0)
+	if o, ok := m[names[1]]; ok {
+		jar.Store(o.line, t0)
+	}
+	hdr := jar.Header("/")
+	w.reset()
+	w.ask = []string{names[0], names[1]}
+	okr := false
+	if e.Guard(c, "replay-rawline", cfg, func() { okr = wireRead(app, "/", hdr) }) {
+		return
+	}
+	e.Eval(1)
+	if !okr || w.entered != 1 {
+		return
+	}
+	if _, in := jar.Get(names[0]); in {
+		if w.got[names[0]] != core {
+			cfg["cookies_view"] = printable(w.got[names[0]])
+			e.Violation(c, "roundtrip|handler-view|raw-set-cookie-line", "cookie written as a raw Set-Cookie line does not come back with its original value", cfg)
+		} else {
+			stat(e, "rawline_roundtrip_ok", 1)
+		}
+	}
+}
+
+// ---------------------------------------------------------------------------------------------
 // direct-drive helpers
 
 type rig struct {
@@ -597,8 +739,12 @@ type rig struct {
 }
 
 func newRig(r *gen.Rand, except []string) *rig {
-	g := &rig{except: except, w: &world{}}
-	g.keyRaw, g.key = genKey(r)
+	k, _ := genKey(r)
+	return newRigKey(k, except)
+}
+
+func newRigKey(keyRaw []byte, except []string) *rig {
+	g := &rig{except: except, w: &world{}, keyRaw: keyRaw, key: base64.StdEncoding.EncodeToString(keyRaw)}
 	g.d = drive.NewDirect(newApp(g.key, except, true, g.w))
 	return g
 }
@@ -635,7 +781,40 @@ func gotClass(got, sent string) string {
 // ---------------------------------------------------------------------------------------------
 // tamper family
 
-const b64alpha = "ABCDEFGHIJKLMNOPQRSTUVWXYZabcdefghijklmnopqrstuvwxyz0123456789+/"
+const (
+	b64alpha   = "ABCDEFGHIJKLMNOPQRSTUVWXYZabcdefghijklmnopqrstuvwxyz0123456789+/"
+	urlalpha   = "ABCDEFGHIJKLMNOPQRSTUVWXYZabcdefghijklmnopqrstuvwxyz0123456789-_"
+	unionAlpha = "ABCDEFGHIJKLMNOPQRSTUVWXYZabcdefghijklmnopqrstuvwxyz0123456789+/-_="
+	nonAlpha   = ".~!*$%,: \x00\n\x7f\x80\xff"
+)
+
+// swapAlpha returns the character that plays the same role in the other base64 alphabet
+// ('+'<->'-', '/'<->'_'), padding for anything else.
+func swapAlpha(b byte, r *gen.Rand) byte {
+	k := r.Intn(20) // always one draw: the PRNG stream must not depend on the (random) ciphertext text
+	switch b {
+	case '+':
+		return '-'
+	case '-':
+		return '+'
+	case '/':
+		return '_'
+	case '_':
+		return '/'
+	case '=':
+		return "-_+/"[k%4]
+	}
+	return "=-_+/"[k%5]
+}
+
+func dupBefore(bs []byte, b byte) bool {
+	for _, x := range bs {
+		if x == b {
+			return true
+		}
+	}
+	return false
+}
 
 type tcase struct {
 	class string
@@ -689,16 +868,39 @@ func tamperBase(e *ev.Env, c *ev.Case, thorough bool) {
 	}) {
 		return
 	}
-	ct, cb := iss[target], iss[nb]
-	if got, ok := open(g.keyRaw, ct); !ok || got != p {
-		e.Violation(c, issueSig(lossClass(p)), "issued ciphertext is not AES-GCM(nonce|ct|tag) of the value under the configured key", cfg)
+	ct, okT := iss[target]
+	cb, okB := iss[nb]
+	if !okT || !okB {
+		e.Violation(c, "wire|set-cookie-missing", "cookie set by the handler is not in the response as a well-formed cookie line", cfg)
 		return
 	}
 	if iss[nx] != xraw {
 		e.Violation(c, "except|wire-set-cookie|altered", "excepted cookie altered on the way out", cfg)
 		return
 	}
-	ctRaw, _ := base64.StdEncoding.DecodeString(ct)
+	// statement clause: the client sees ciphertext only (raw strings, no encoding assumed)
+	if (len(p) >= 6 && strings.Contains(ct, p)) || (ct == p) {
+		e.Violation(c, "confidentiality|wire-set-cookie|value-not-encrypted", "plaintext of an encrypted cookie is visible in its Set-Cookie value", cfg)
+		return
+	}
+	// Observation only: does the issued value happen to be std base64 of nonce|ct|tag opening to p?
+	// It selects the tamper oracle, it is never a verdict.
+	recognised := false
+	var ctRaw []byte
+	if got, ok := open(g.keyRaw, ct); ok && got == p {
+		recognised = true
+		ctRaw, _ = base64.StdEncoding.DecodeString(ct)
+		stat(e, "format_recognised", 1)
+	} else {
+		stat(e, "format_unrecognised", 1)
+		ctRaw = r.Bytes(28 + len(p)) // only feeds the garbage generators below
+	}
+	cfg["format_recognised"] = recognised
+	// may the ORIGINAL value legitimately come out for this altered text?
+	//  recognised format : only if the text base64-decodes to the very same ciphertext bytes
+	//  unknown format    : the statement's own rule - the handler sees "" or the issued value,
+	//                      never any other text (the harness cannot tell which texts decode alike)
+	mayBeOriginal := func(v string) bool { return !recognised || decodesTo(v, ctRaw) }
 
 	// cookie arrangement, fixed per base
 	arr := r.Intn(4)
@@ -736,24 +938,29 @@ func tamperBase(e *ev.Env, c *ev.Case, thorough bool) {
 			}
 			continue
 		}
-		// exactly three other values per position, independent of the (randomly nonced) ciphertext
-		// text, so that the case list is a function of the seed alone
-		sub := func(b byte) { add("substitution", ct[:i]+string([]byte{b})+ct[i+1:]) }
-		var v1, v2 byte
+		// exactly four other values per position, drawn without assuming the value's alphabet and
+		// independent of the (randomly nonced) text, so that the case list is a function of the seed
+		var vs [4]byte
 		if j := strings.IndexByte(b64alpha, ct[i]); j >= 0 {
-			v1 = b64alpha[j^1]                 // adjacent sextet: lowest bit only
-			v2 = b64alpha[(j+2+r.Intn(60))%64] // any other sextet
-		} else { // '=' padding
-			v1 = 'A'
-			v2 = b64alpha[1+r.Intn(63)]
+			vs[0] = b64alpha[j^1] // adjacent sextet of the std alphabet: lowest bit only
+		} else if j := strings.IndexByte(urlalpha, ct[i]); j >= 0 {
+			vs[0] = urlalpha[j^1] // same for the URL-safe alphabet
+		} else {
+			vs[0] = 'A'
 		}
-		v3 := r.Byte()
-		if v3 == ct[i] || v3 == v1 || v3 == v2 {
-			v3 ^= 0x80
+		vs[1] = unionAlpha[r.Intn(len(unionAlpha))] // std + URL-safe alphabets + '='
+		vs[2] = swapAlpha(ct[i], r)                 // the twin character of the other alphabet / padding
+		vs[3] = nonAlpha[r.Intn(len(nonAlpha))]     // bytes of no base64 alphabet
+		if r.Bool() {
+			vs[3] = r.Byte()
 		}
-		sub(v1)
-		sub(v2)
-		sub(v3)
+		for k := range vs {
+			// keep four distinct values different from the original, deterministically
+			for tries := 0; vs[k] == ct[i] || dupBefore(vs[:k], vs[k]); tries++ {
+				vs[k] = unionAlpha[(strings.IndexByte(unionAlpha, vs[k])+1+tries+len(unionAlpha))%len(unionAlpha)]
+			}
+			add("substitution", ct[:i]+string([]byte{vs[k]})+ct[i+1:])
+		}
 	}
 	// truncations (every proper prefix, some suffixes)
 	for i := 0; i < len(ct); i++ {
@@ -763,8 +970,12 @@ func tamperBase(e *ev.Env, c *ev.Case, thorough bool) {
 		add("truncation", ct[i:])
 	}
 	// extensions
-	for _, s := range []string{"A", "=", "AA", "==", "A=", "AAA", "A==", "AAAA", "QUFB", "\n", "\r\n", "%3D", ".", "-", "_"} {
+	for _, s := range []string{"A", "=", "AA", "==", "A=", "AAA", "A==", "AAAA", "QUFB", "\n", "\r\n", "%3D", ".", "-", "_", "-_", "_w", "__-A"} {
 		add("extension", ct+s)
+	}
+	// one inserted character at every position
+	for i := 0; i <= len(ct); i++ {
+		add("extension", ct[:i]+string(unionAlpha[r.Intn(len(unionAlpha))])+ct[i:])
 	}
 	for _, s := range []string{"A", "AAAA", "=", "\n"} {
 		add("extension", s+ct)
@@ -780,6 +991,18 @@ func tamperBase(e *ev.Env, c *ev.Case, thorough bool) {
 		add("other-key", seal(ok, ctRaw[:12], []byte(p)))
 		add("other-key", seal(ok, r.Bytes(12), []byte(p)))
 		add("other-key", seal(ok, r.Bytes(12), []byte("admin")))
+	}
+	// ... and, whatever the issuer's format is, the same value issued by the real middleware under
+	// other keys of every size
+	for _, n := range []int{16, 24, 32} {
+		og := newRigKey(r.Bytes(n), except)
+		var oiss map[string]string
+		if !e.Guard(c, "issue", cfg, func() { oiss = og.issue([]setInstr{{Name: target, Value: p, Path: "/"}}) }) {
+			if v, ok := oiss[target]; ok {
+				add("other-key", v)
+				stat(e, "tamper_other_key_issued_by_middleware", 1)
+			}
+		}
 	}
 	flip := append([]byte(nil), g.keyRaw...)
 	flip[r.Intn(len(flip))] ^= 1 << uint(r.Intn(8))
@@ -808,10 +1031,13 @@ func tamperBase(e *ev.Env, c *ev.Case, thorough bool) {
 		e.Eval(1)
 		stat(e, "tamper_cases", 1)
 		stat(e, "tamper_"+tc.class, 1)
-		same := decodesTo(tc.v, ctRaw)
+		same := mayBeOriginal(tc.v)
+		if !recognised {
+			stat(e, "tamper_agnostic", 1)
+		}
 		det := func() map[string]any {
 			return map[string]any{"config": cfg, "issued": ct, "sent": printable(tc.v), "sent_hex": hexs(tc.v), "mutation": tc.class,
-				"decodes_to_issued_ciphertext": same, "cookies_view": printable(g.w.got[target]), "visit_view": fmt.Sprint(visitOf(g.w.visited, target)),
+				"format_recognised": recognised, "original_value_acceptable": same, "cookies_view": printable(g.w.got[target]), "visit_view": fmt.Sprint(visitOf(g.w.visited, target)),
 				"cookie_header": printable(header(tc.v))}
 		}
 		if g.w.entered != 1 {
@@ -821,13 +1047,17 @@ func tamperBase(e *ev.Env, c *ev.Case, thorough bool) {
 		got := g.w.got[target]
 		switch {
 		case got == "":
-			if same {
+			if same && recognised {
 				stat(e, "tamper_same_bytes_rejected", 1)
 			} else {
 				stat(e, "tamper_rejected", 1)
 			}
 		case got == p && same:
-			stat(e, "tamper_same_bytes_accepted", 1)
+			if recognised {
+				stat(e, "tamper_same_bytes_accepted", 1)
+			} else {
+				stat(e, "tamper_agnostic_original_seen", 1)
+			}
 		default:
 			e.Violation(c, "tamper|Cookies|"+tc.class+"|"+gotClass(got, tc.v), "a cookie value not issued under the current key reached the handler as text", det())
 		}
@@ -867,6 +1097,17 @@ type sent struct {
 	v      string
 	kind   string // authentic | forged | excepted
 	expect string // plaintext for authentic, "" for forged, raw for excepted
+	// alt: for a forgery made by altering an issued value whose format the harness does not
+	// recognise, the issued plaintext is acceptable too (statement: "" or the original value,
+	// never any other text) - the harness cannot tell which alterations decode alike.
+	alt    string
+	hasAlt bool
+}
+
+func (s sent) ok(v string) bool { return v == s.expect || (s.hasAlt && v == s.alt) }
+
+func mkSent(name, v, kind, expect string) sent {
+	return sent{name: name, v: v, kind: kind, expect: expect}
 }
 
 func multi(e *ev.Env, c *ev.Case, fixed []string) {
@@ -888,28 +1129,59 @@ func multi(e *ev.Env, c *ev.Case, fixed []string) {
 			plain[n] = pv
 			cs = append(cs, setInstr{Name: n, Value: pv[round], Path: "/"})
 		}
-		iss := g.issue(cs)
+		var iss map[string]string
+		if e.Guard(c, "issue", map[string]any{"key_len": len(g.keyRaw)}, func() { iss = g.issue(cs) }) {
+			return
+		}
 		for _, n := range names[:3] {
+			if len(iss[n]) < 8 {
+				// nothing usable was issued; the script family judges missing / malformed Set-Cookie lines
+				stat(e, "multi_skipped_nothing_issued", 1)
+				return
+			}
 			cv := ctx[n]
 			cv[round] = iss[n]
 			ctx[n] = cv
 		}
 	}
-	forge := func(n string) string {
+	// observation only (see open): selects how forgeries derived from an issued value are judged
+	recognised := true
+	for _, n := range names[:3] {
+		if got, ok := open(g.keyRaw, ctx[n][0]); !ok || got != plain[n][0] {
+			recognised = false
+		}
+	}
+	if recognised {
+		stat(e, "format_recognised", 1)
+	} else {
+		stat(e, "format_unrecognised", 1)
+	}
+	forge := func(n string) sent {
 		ct := ctx[n][0]
+		derived := func(v string) sent {
+			f := mkSent(n, v, "forged", "")
+			if !recognised {
+				f.alt, f.hasAlt = plain[n][0], true
+			}
+			return f
+		}
 		switch r.Intn(5) {
 		case 0:
-			return r.StringFrom(cookieSafe, r.Range(1, 30))
+			return mkSent(n, r.StringFrom(cookieSafe, r.Range(1, 30)), "forged", "")
 		case 1:
-			i := r.Intn(len(ct) - 4) // never the last quantum: its padding bits may decode to the same bytes
-			j := strings.IndexByte(b64alpha, ct[i])
-			return ct[:i] + string(b64alpha[(j+1+r.Intn(62))%64]) + ct[i+1:]
+			// never the last characters: in std base64 their padding bits may decode to the same bytes
+			i := r.Intn(len(ct) - 4)
+			k := r.Intn(62)
+			if j := strings.IndexByte(b64alpha, ct[i]); j >= 0 {
+				return derived(ct[:i] + string(b64alpha[(j+1+k)%64]) + ct[i+1:])
+			}
+			return derived(ct[:i] + string(b64alpha[k]) + ct[i+1:])
 		case 2:
-			return ct[:r.Intn(len(ct))]
+			return derived(ct[:r.Intn(len(ct))])
 		case 3:
-			return seal(r.Bytes(len(g.keyRaw)), r.Bytes(12), []byte("admin"))
+			return mkSent(n, seal(r.Bytes(len(g.keyRaw)), r.Bytes(12), []byte("admin")), "forged", "")
 		default:
-			return "admin"
+			return mkSent(n, "admin", "forged", "")
 		}
 	}
 	var list []sent
@@ -920,12 +1192,12 @@ func multi(e *ev.Env, c *ev.Case, fixed []string) {
 		for _, k := range fixed {
 			switch k {
 			case "authentic":
-				list = append(list, sent{n, ctx[n][idx%2], "authentic", plain[n][idx%2]})
+				list = append(list, mkSent(n, ctx[n][idx%2], "authentic", plain[n][idx%2]))
 				idx++
 			case "forged":
-				list = append(list, sent{n, "admin", "forged", ""})
+				list = append(list, mkSent(n, "admin", "forged", ""))
 			case "forged2":
-				list = append(list, sent{n, "guest", "forged", ""})
+				list = append(list, mkSent(n, "guest", "forged", ""))
 			}
 		}
 	} else {
@@ -935,18 +1207,30 @@ func multi(e *ev.Env, c *ev.Case, fixed []string) {
 			switch {
 			case n == names[3]:
 				v := genExceptValue(r)
-				list = append(list, sent{n, v, "excepted", v})
+				list = append(list, mkSent(n, v, "excepted", v))
 			case r.Chance(1, 5):
 				// authentic ciphertext (sealed under the current key, as the exported EncryptCookie
 				// would) of a plaintext that cookie parsing would mangle if it were ever re-parsed
 				pv := gen.Pick(r, []string{" padded ", "a;b", "x; admin=1", "\"quoted\"", " lead", "trail ", "k=v; Path=/"})
-				list = append(list, sent{n, seal(g.keyRaw, r.Bytes(12), []byte(pv)), "authentic", pv})
+				// The issuer is the package's own exported EncryptCookie (the default Encryptor), so the
+				// value is authentic in whatever encoding the tree under test uses.
+				nonce := r.Bytes(12) // drawn unconditionally: PRNG stream independent of the branch
+				av, err := mw.EncryptCookie(pv, g.key)
+				switch {
+				case err == nil:
+				case recognised:
+					av = seal(g.keyRaw, nonce, []byte(pv))
+				default:
+					k := r.Intn(2)
+					av, pv = ctx[n][k], plain[n][k]
+				}
+				list = append(list, mkSent(n, av, "authentic", pv))
 				stat(e, "multi_authentic_fragile_plaintext", 1)
 			case r.Chance(3, 5):
 				k := r.Intn(2)
-				list = append(list, sent{n, ctx[n][k], "authentic", plain[n][k]})
+				list = append(list, mkSent(n, ctx[n][k], "authentic", plain[n][k]))
 			default:
-				list = append(list, sent{n, forge(n), "forged", ""})
+				list = append(list, forge(n))
 			}
 		}
 	}
@@ -1011,7 +1295,7 @@ func multi(e *ev.Env, c *ev.Case, fixed []string) {
 		if len(mine) == 1 {
 			s := mine[0]
 			sigc := "handler-view|" + s.kind + "-single"
-			if g.w.got[n] != s.expect || !eqStrs(vs, []string{s.expect}) {
+			if !s.ok(g.w.got[n]) || len(vs) != 1 || !s.ok(vs[0]) {
 				switch s.kind {
 				case "excepted":
 					e.Violation(c, "except|request|altered", "excepted cookie altered on the way in", det())
@@ -1044,6 +1328,9 @@ func multi(e *ev.Env, c *ev.Case, fixed []string) {
 				allowed[s.expect] = true
 			} else {
 				anyForged = true
+				if s.hasAlt {
+					allowed[s.alt] = true
+				}
 			}
 		}
 		if anyForged {
@@ -1088,6 +1375,13 @@ func run(e *ev.Env) {
 		script(e, c, k, ks, nil, []issued{mk("t", `"vquote0001"`, "vquote0001", "outer-dquote")}, false)
 		script(e, c, k, ks, nil, []issued{mk("t", "vsemi00001;vsemi00002", "vsemi00001", "semicolon")}, false)
 	})
+
+	for i, ra := range rawAttrs {
+		i := i
+		if ra.odd {
+			e.Corpus(fmt.Sprintf("rawline-odd-%d", i), func(c *ev.Case) { rawline(e, c, i) })
+		}
+	}
 
 	// ---- generated ------------------------------------------------------------------------------
 	e.Cases("script", e.N(300, 20000), func(c *ev.Case) {
@@ -1142,9 +1436,11 @@ func run(e *ev.Env) {
 
 	e.Cases("multi", e.N(4000, 300000), func(c *ev.Case) { multi(e, c, nil) })
 
+	e.Cases("rawline", e.N(400, 20000), func(c *ev.Case) { rawline(e, c, -1) })
+
 	if e.Only == "" {
 		for _, name := range []string{"wire_ciphertext_only", "nonce_fresh", "roundtrip_ok_clean", "except_wire_identical", "except_request_identical",
-			"tamper_rejected", "tamper_substitution", "tamper_truncation", "tamper_extension", "tamper_other-key", "multi_duplicate_names", "multi_single_ok"} {
+			"tamper_rejected", "tamper_substitution", "tamper_truncation", "tamper_extension", "tamper_other-key", "multi_duplicate_names", "multi_single_ok", "rawline_odd_attribute_ciphertext_only"} {
 			if seen[name] == 0 {
 				e.Inconclusive("never observed: " + name)
 			}
@@ -1152,7 +1448,7 @@ func run(e *ev.Env) {
 	}
 
 	e.Note("nontrivial_rule", "tamper bases, multi requests (>= 2 cookies), replay requests carrying >= 2 cookies")
-	e.Note("tamper_enumeration", "every position of the issued base64 text: quick 3 other byte values (adjacent sextet, random base64 char, random byte), thorough all 255; every proper prefix; 21 extensions; 11 other-key ciphertexts; garbage")
+	e.Note("tamper_enumeration", "every position of the issued text (no alphabet assumed): quick 4 other byte values (adjacent sextet, char of std+URL-safe alphabets or '=', twin char of the other alphabet, non-alphabet/random byte), thorough all 255; every proper prefix; appended/prepended extensions and one inserted char at every position; other-key values (harness-sealed and issued by the middleware itself under other keys of each size); garbage. Oracle per base: format recognised (std base64 nonce|ct|tag) => original only for byte-identical decodings; otherwise empty or the original, never other text (tamper_agnostic)")
 }
 
 // seen mirrors the stats the run-level observation thresholds look at.
